@@ -245,6 +245,22 @@ def placement(rep, tier, cases):
                             if lost:
                                 rep.violation({"leg": "placement", "what": "type/module rename changed method names", "backend": b,
                                                "place": place, "type_kind": tkind}, {"methods_no_longer_rendered": lost})
+            # the backend's own name as the condition, under its canonical and its legacy spelling ("cpp2": a trailing 2 is stripped
+            # by the tool): the condition holds, so the output is the unconditional-attribute output
+            if tkind == "opaque":
+                for b in ("cpp", "js", "dart"):
+                    src_p = os.path.join(wd, "own_name.rs")
+                    open(src_p, "w").write(program(kind, place, b, tkind))
+                    for nm in (b, b + "2"):
+                        o2 = os.path.join(wd, "out_own_%s" % nm)
+                        r2 = lib.run_tool(nm, src_p, o2)
+                        t2 = observe.read_tree(o2) if r2["rc"] == 0 else None
+                        nruns += 1
+                        if r2["rc"] != star[b]["rc"] or t2 != star[b]["tree"]:
+                            diff = [f for f in set(t2 or {}) | set(star[b]["tree"] or {}) if (t2 or {}).get(f) != (star[b]["tree"] or {}).get(f)]
+                            rep.violation({"leg": "placement", "kind": kind, "place": place, "backend": nm, "holds": True,
+                                           "what": "the backend's own name as condition does not apply the attribute"},
+                                          {"formula": b, "differing_files": sorted(diff)[:10], "stderr": r2["stderr"][-400:]})
             # conditional attribute: each backend equals star-output iff Sat(F, b)
             for sig in sigs[:(per_place if tkind == "opaque" else 1)]:
                 c = rng.choice(by_sig[sig])
@@ -266,6 +282,19 @@ def placement(rep, tier, cases):
                         rep.violation({"leg": "placement", "kind": kind, "place": place, "backend": b, "holds": c["sat"][b]},
                                       {"formula": txt, "differing_files": sorted(diff)[:10], "stderr": got[b]["stderr"],
                                        "program": program(kind, place, txt, tkind)})
+                # the tool still answers to the legacy backend names ("cpp2", "js2", ...: a trailing 2 is stripped): under such a name
+                # the same conditions hold, so the output is that of the canonical name, byte for byte
+                if tkind == "opaque":
+                    for b in ("cpp", "js", "dart"):
+                        src_p = os.path.join(wd, "cond.rs")
+                        o2 = os.path.join(wd, "out_cond_%s2" % b)
+                        r2 = lib.run_tool(b + "2", src_p, o2)
+                        t2 = observe.read_tree(o2) if r2["rc"] == 0 else None
+                        if r2["rc"] != got[b]["rc"] or t2 != got[b]["tree"]:
+                            diff = [f for f in set(t2 or {}) | set(got[b]["tree"] or {}) if (t2 or {}).get(f) != (got[b]["tree"] or {}).get(f)]
+                            rep.violation({"leg": "placement", "kind": kind, "place": place, "backend": b + "2", "holds": c["sat"][b],
+                                           "what": "output under the legacy backend name differs from the canonical one"},
+                                          {"formula": txt, "differing_files": sorted(diff)[:10], "stderr": r2["stderr"][-400:]})
                 rep.nontriv("%s@%s:%s" % (kind, place, txt))
     rep.evaluations += nruns * len(lib.BACKENDS)
     rep.traces += nruns
